@@ -19,4 +19,9 @@ def check(ctx: Ctx) -> str:
     token_line_rules(ctx, "R1")
     lstrip_rules(ctx, "R3")
     newline_rules(ctx, "R5")
+    # Environment.lex uses self.lexer: the lexer must be the one for the environment's
+    # *current* options (overlays, later attribute changes), never a memoised one
+    from . import c13
+
+    ctx.run_imported("C13", {"R3", "R6"}, c13.check)
     return __doc__ or ""
